@@ -1,4 +1,5 @@
 import BoltonsVerif.Generated.C07_Schemes
+import BoltonsVerif.Generated.C07_Nav
 /-
 C07 — model of `boltons.urlutils.URL.navigate`, `resolve_path_parts`, `URL.normalize`,
 `URL.from_parts`, `URL.get_authority`, `URL.to_text` (the code as it is after the two
@@ -35,6 +36,9 @@ structure URL where
   port      : Nat         -- 0 = `None`
   parts     : List Str    -- `path_parts`
   query     : QPairs      -- `query_params` (all items, in order); `[]` = no parameters
+  hasQuery  : Bool := false   -- `_query is not None`: the text this object was parsed from has a query component,
+                          -- possibly empty (`?`); `false` for objects made by `URL()` / `from_parts`.  Read only by
+                          -- `navigate` of the repaired code, and only on the REFERENCE (fix 35ff68e)
   fragment  : Str
 deriving Repr, DecidableEq
 
@@ -176,8 +180,15 @@ def URL.normalize (u : URL) (withCase : Bool := true) : URL :=
 /-- Python `a or b` on texts -/
 def orStr (a b : Str) : Str := if a ≠ [] then a else b
 
-/-- `URL.navigate(dest)`; `dest` is the already-constructed `URL(dest)` -/
-def URL.navigate (self dest : URL) : URL :=
+/-- `URL.navigate(dest)`; `dest` is the already-constructed `URL(dest)`.
+    `honour` = the code has the repair of known finding C07-empty-query (commit 35ff68e on r3-c07-work): the base
+    query is inherited only when the reference has NO query component (`dest._query is None`); without the repair
+    (`honour = false`) a present-but-empty query (`?`) inherits it too.  Both versions are modelled; which one the
+    code under test is, is re-established on every run (`C07.Gen.navHonoursEmptyQuery`, `URL.navigate` below).
+    (A replacing absolute reference is returned as it is; the code returns a copy made through `to_text()` when it
+    was handed a `URL` object, whose `hasQuery` is then "has parameters" - nothing can observe that bit on a
+    result, because `navigate` reads it on the reference only.) -/
+def URL.navigateWith (honour : Bool) (self dest : URL) : URL :=
   if dest.scheme ≠ [] ∧ dest.host ≠ [] then dest      -- "absolute URLs replace everything"
   else
     let dpath := dest.pathText
@@ -188,12 +199,15 @@ def URL.navigate (self dest : URL) : URL :=
           let baseParts := self.parts.dropLast
           (if self.host ≠ [] ∧ baseParts.head? ≠ some [] then [] :: baseParts else baseParts) ++ dest.parts
       else self.parts
-    -- `query_params = dest.query_params`; without a path: `if not query_params: query_params = self.query_params`
+    -- `query_params = dest.query_params`; without a path:
+    --   repaired: `if not query_params and dest._query is None: query_params = self.query_params`
+    --   before:   `if not query_params: query_params = self.query_params`
     let query : QPairs :=
       if dpath ≠ [] then dest.query
-      else if dest.query = [] then self.query else dest.query
-    -- `from_parts(...)` (a fresh URL: `_netloc_sep` empty, `path_parts or ('',)`, `ret.query_params.update(query_params)`
-    -- on the empty `QueryParamDict` of the fresh URL), then the family, then `normalize()`
+      else if dest.query = [] ∧ ¬ (honour = true ∧ dest.hasQuery = true) then self.query else dest.query
+    -- `from_parts(...)` (a fresh URL: `_netloc_sep` empty, `_query` None, `path_parts or ('',)`,
+    -- `ret.query_params.update(query_params)` on the empty `QueryParamDict` of the fresh URL), then the family,
+    -- then `normalize()`
     URL.normalize
       { scheme := orStr dest.scheme self.scheme
         netlocSep := false
@@ -204,7 +218,15 @@ def URL.navigate (self dest : URL) : URL :=
         port := if dest.port ≠ 0 then dest.port else self.port
         parts := if newParts = [] then [[]] else newParts
         query := omdUpdate [] query
+        hasQuery := false
         fragment := dest.fragment }
+
+/-- `URL.navigate` of the code under test: the version the current source implements -/
+def URL.navigate (self dest : URL) : URL := URL.navigateWith C07.Gen.navHonoursEmptyQuery self dest
+
+/-- a whole navigation history, for either version -/
+def URL.navigateAllWith (honour : Bool) (self : URL) (dests : List URL) : URL :=
+  dests.foldl (URL.navigateWith honour) self
 
 /-- a whole navigation history -/
 def URL.navigateAll (self : URL) (dests : List URL) : URL := dests.foldl URL.navigate self
@@ -224,10 +246,28 @@ deriving Repr, DecidableEq
 def URL.ofComponents (scheme : Option Str) (hasAuthority : Bool) (user pass host : Str) (v6 : Bool) (port : Nat)
     (path : Str) (query fragment : Option Str) : URL :=
   { scheme := scheme.getD [], netlocSep := hasAuthority, user := user, pass := pass, host := host, v6 := v6,
-    port := port, parts := splitSlash path, query := parseQsl (query.getD []), fragment := fragment.getD [] }
+    port := port, parts := splitSlash path, query := parseQsl (query.getD []), hasQuery := query.isSome,
+    fragment := fragment.getD [] }
 
 /-- `URL(text)` for a reference without scheme and authority -/
 def URL.ofRelRef (r : Ref) : URL :=
   URL.ofComponents none false [] [] [] false 0 r.path r.query r.fragment
+
+/-! ### `URL(text)` for a reference text without scheme and authority: where the path, the query and the fragment
+    of the text are (boltons' `_URL_RE`, groups `path`, `query`, `fragment`) -/
+
+/-- cut at the first `c`: (before, after-or-nothing) -/
+def cutAt (c : Char) : Str → Str × Option Str
+  | [] => ([], none)
+  | x :: xs => if x = c then ([], some xs) else ((x :: (cutAt c xs).1), (cutAt c xs).2)
+
+/-- the components of a reference text that has neither scheme nor authority: the fragment starts at the first
+    `#`, the query at the first `?` before it -/
+def refOfText (t : Str) : Ref :=
+  { scheme := none, authority := none, path := (cutAt '?' (cutAt '#' t).1).1,
+    query := (cutAt '?' (cutAt '#' t).1).2, fragment := (cutAt '#' t).2 }
+
+/-- `URL(text)` for such a text -/
+def URL.ofText (t : Str) : URL := URL.ofRelRef (refOfText t)
 
 end C07
